@@ -232,7 +232,9 @@ def c10(tier):
 
 import convgen
 
-def conv_inst(name, L, opts="", defs=(), timeout=600, functions=None):
+def conv_inst(name, L, opts="", defs=(), timeout=600, functions=None, keep=None):
+    if keep is not None:
+        L.concretize(keep)
     n = len(L.tpl)
     cap = max(n + 3, 9)
     d = {"STRCAP": cap, "VCAP": max(len(L.exps), len(L.secs) + 1, 2) + 1, "VFS_CONTENT": n + 1, "VFS_MAXNODES": 2}
@@ -240,7 +242,7 @@ def conv_inst(name, L, opts="", defs=(), timeout=600, functions=None):
     E = max(len(L.exps), 1); G = len(L.secs) + 1
     uw = lib_unwinds(E, G, lines=L.line + 1) + [(r"p_conv\.c", r"r < NREL", len(L.rels) + 1), (r"p_conv\.c", r"p < FLEN", n + 1),
           (r"p_conv\.c", r"i < NEXP", len(L.exps) + 1), (r"p_conv\.c", r"i < NSEC|s < NSEC", len(L.secs) + 2), (r"p_conv\.c", r"p < MAXP", 5),
-          (r"p_conv\.c", r"p < n;", 5), (r"p_conv\.c", r"\*set; set\+\+", 18), (r"p_conv\.c", r"\*d; d\+\+", 5), (r"libeconf_ext\.c", r"strsep", 5), (r"vfs_cbmc\.c", r"k < VFS_CONTENT", n + 3)]
+          (r"p_conv\.c", r"p < n;", 5), (r"builtin-library-strncpy", r"", 18), (r"p_conv\.c", r"\*set; set\+\+", 18), (r"p_conv\.c", r"\*d; d\+\+", 5), (r"libeconf_ext\.c", r"strsep", 5), (r"vfs_cbmc\.c", r"k < VFS_CONTENT", n + 3)]
     inst = Instance(name, "p_conv.c", d, unwind=cap + 1, unwindset=uw, timeout=timeout, mem_gb=8, leak_check=False,
                     gen_files={"layout.h": L.header(opts=opts)},
                     functions=functions or "read_file_with_callback, read_file, store, check_delim, setGroupList, econf_getGroups, econf_getKeys, econf_getStringValue, econf_getExtValue, econf_errLocation, econf_freeFile",
@@ -250,7 +252,7 @@ def conv_inst(name, L, opts="", defs=(), timeout=600, functions=None):
     inst.functional_only = True
     return inst
 
-def conv_family(tier, seed, meta=False, err=False, kinds=None, per_class=None, defs=("CHECK_KEYS",), sysl=True, nlines=(2, 3), delims=None, comments=None, python=False, tag="conv", sys_quick=28, maxlen=None):
+def conv_family(tier, seed, meta=False, err=False, kinds=None, per_class=None, defs=("CHECK_KEYS",), sysl=True, nlines=(2, 3), delims=None, comments=None, python=False, tag="conv", sys_quick=28, maxlen=None, keep=None):
     import random
     rng = random.Random(1000 + seed)
     insts = []
@@ -277,7 +279,7 @@ def conv_family(tier, seed, meta=False, err=False, kinds=None, per_class=None, d
             for tg, L in layouts:
                 if not L.valid() or len(L.tpl) == 0 or len(L.tpl) > (maxlen or (26 if tier == "quick" else 34)): continue
                 if not err and L.err is not None: continue
-                insts.append(conv_inst("%s-%s-%s-%s" % (tag, dn, cn, tg), L, opts="PYTHON_STYLE=1" if python else "", defs=defs))
+                insts.append(conv_inst("%s-%s-%s-%s" % (tag, dn, cn, tg), L, opts="PYTHON_STYLE=1" if python else "", defs=defs, keep=keep(len(insts)) if callable(keep) else keep))
     return insts
 
 def c02(tier):
@@ -460,6 +462,48 @@ def r_inst(kind, expect=None):
                  bounds="one file of kind %s; owner/group in {0,1}; every combination of owner/group/no-symlink restriction with symbolic required ids, optional reset, optional callback with symbolic verdict; one symbolic value byte" % {0: "absent", 1: "regular", 4: "symlink to a regular file"}[kind],
                  expect=expect)
 
+def c05(tier):
+    seed = int(__import__("os").environ.get("VERIF_SEED", "0") or 0)
+    kinds = ["comment", "comment", "comment", "entry", "entry", "section", "blank"]
+    insts = conv_family(tier, seed, kinds=kinds, sysl=False, per_class=4 if tier == "quick" else 24, tag="cmt", defs=("CHECK_KEYS",), keep=(lambda i: None if i % 3 == 0 else "chbB"),
+                        delims=["eq", "sp", "speq"] if tier == "quick" else None, comments=["hash", "both", "semi"] if tier != "quick" else ["hash", "both"],
+                        nlines=(2, 3, 3), maxlen=22 if tier == "quick" else 32)
+    # fixed core: a comment line (indented / not) directly after, before and between entries
+    for dn, cn in (("eq", "hash"), ("eq", "both"), ("sp", "hash")) if tier == "quick" else [(d, c) for d in convgen.DELIM_SETS if d != "none" for c in convgen.COMMENT_SETS]:
+        dl, cm = convgen.DELIM_SETS[dn], convgen.COMMENT_SETS[cn]
+        for ind in ("", " ", "\t"):
+            for n in (1, 3):
+                L = convgen.Layout(dl, cm); f = convgen.seps_for(L)[0]
+                L.entry("", 1, f, "plain1", ""); L.comment_line(ind, n); L.entry("", 1, f, "plain1", "")
+                insts.append(conv_inst("cmt-%s-%s-after-i%d-n%d" % (dn, cn, len(ind) + (ind == "\t"), n), L, defs=("CHECK_KEYS",), keep=None if n == 1 else "chbB"))
+        L = convgen.Layout(dl, cm); f = convgen.seps_for(L)[0]
+        L.comment_line("", 3); L.section("", 1, ""); L.comment_line(" ", 2); L.entry("", 1, f, "quoted2", "")
+        insts.append(conv_inst("cmt-%s-%s-block" % (dn, cn), L, defs=("CHECK_KEYS",)))
+    return {"instances": insts, "assumptions": COMMON_ASSUME + ["comment text is fully symbolic (any byte except newline and NUL: further comment characters, delimiters, quotes, brackets, blanks); layouts concrete per instance (fixed core + VERIF_SEED sample); in two of three instances the non-comment fields are representative literals, in the others every field character is symbolic as well",
+            "inserting/deleting comment lines: every layout with and without comment lines is compared with its constructed expectation, which ignores comment lines"],
+            "explanation": "bounded model checking of the parser on layouts rich in comment lines with arbitrary text"}
+
+def c17(tier):
+    seed = int(__import__("os").environ.get("VERIF_SEED", "0") or 0)
+    defs = ("CHECK_META", "CHECK_EXT")
+    insts = conv_family(tier, seed, meta=True, sysl=False, per_class=5 if tier == "quick" else 20, tag="meta", defs=defs,
+                        delims=["eq", "sp", "coleq"] if tier == "quick" else None, nlines=(2, 3, 3), maxlen=22 if tier == "quick" else 32)
+    for dn, cn in (("eq", "hash"), ("sp", "both")) if tier == "quick" else [(d, c) for d in convgen.DELIM_SETS if d != "none" for c in convgen.COMMENT_SETS]:
+        dl, cm = convgen.DELIM_SETS[dn], convgen.COMMENT_SETS[cn]
+        L = convgen.Layout(dl, cm); f = convgen.seps_for(L)[0]
+        L.comment_line("", 2); L.comment_line("", 1); L.entry("", 1, f, "plain3", " Hcc")
+        insts.append(conv_inst("meta-%s-%s-block-tail" % (dn, cn), L, defs=defs))
+        if not L.mixed:
+            L = convgen.Layout(dl, cm); f = convgen.seps_for(L)[0]
+            L.entry("", 1, f, "plain1", ""); L.cont(" ", 2, ""); L.entry("", 1, f, "quoted2", "")
+            insts.append(conv_inst("meta-%s-%s-cont" % (dn, cn), L, defs=defs))
+        L = convgen.Layout(dl, cm); f = convgen.seps_for(L)[0]
+        L.comment_line("", 1); L.blank(""); L.section("", 1, ""); L.entry("", 2, f, "plain1", "Hc")
+        insts.append(conv_inst("meta-%s-%s-relative" % (dn, cn), L, defs=defs + ("RELATIVE",)))
+    return {"instances": insts, "assumptions": COMMON_ASSUME + ["layouts concrete per instance, characters symbolic (as C02)", "relative names are resolved by a realpath model against a concrete working directory; the native replay uses the real realpath",
+            "econf_getPath of a merged result ('') is asserted by the layered-read harness (C01/C12)"],
+            "explanation": "provenance metadata (absolute path, line of the entry's end, preceding comment lines, trailing comment, blank-trimmed value lines) compared with the spans of the generated file"}
+
 def c13(tier):
     seed = int(__import__("os").environ.get("VERIF_SEED", "0") or 0)
     insts = conv_family(tier, seed, err=True, sysl=False, per_class=3 if tier == "quick" else 14, tag="err", defs=(), delims=["eq", "coleq", "sp", "speq"] if tier == "quick" else None,
@@ -479,7 +523,7 @@ def c20(tier):
             "uninitialised reads: fresh heap memory has arbitrary contents in CBMC, so a read of a never-written field makes the harness assertions on it fail"],
             "explanation": "every early-return path of the layered read with a failure injected at a chosen consulted file, plus API histories, under CBMC's leak / double-free / use-after-free checks"}
 
-REGISTRY = {"C06": c06, "C12": c12, "C13": c13, "C16": c16, "C20": c20, "C01": c01, "C02": c02, "C10": c10, "C11": c11, "C03": c03, "C04": c04, "C08": c08, "C09": c09}
+REGISTRY = {"C05": c05, "C17": c17, "C06": c06, "C12": c12, "C13": c13, "C16": c16, "C20": c20, "C01": c01, "C02": c02, "C10": c10, "C11": c11, "C03": c03, "C04": c04, "C08": c08, "C09": c09}
 
 def get(prop, tier):
     if prop not in REGISTRY:
